@@ -1,7 +1,7 @@
 (* C20 - today's code violates the property: witnesses for the two defective places, closed by vm_compute.
    Strings are encoded by rank: 'A' 'B' 'C' 'D' = 1 2 3 4. *)
 From Coq Require Import ZArith NArith List Bool.
-From OG Require Import C20.Model C20.Proofs C20.Cover C20.ScanProofs C20.NullOrder C20.StrOps C20.BloomModel C20.BloomRepair.
+From OG Require Import C20.Model C20.Proofs C20.Cover C20.ScanProofs C20.NullOrder C20.StrOps C20.Grouped C20.BloomModel C20.BloomRepair.
 From OG Require C20.TokModel.
 Import ListNotations.
 Open Scope Z_scope.
@@ -152,6 +152,22 @@ Proof.
   split; [exists [Some 4]; split; [left; reflexivity | reflexivity]|]. split; vm_compute; reflexivity.
 Qed.
 Print Assumptions C20_literal_reinterpreted_refuted.
+
+(* ---------- the key-grouped index read with the pad value (finding C20-null-key-grouped-index) ----------
+   the same index as C20_example_grouped, a null cell read as the pad value (false = 0, '' = 0): the rows read
+   (0,2) (0,3) (0,0) (0,0) (1,0) are not ordered, and k1 > 'B' loses group 1 = (null,'C'), whose key satisfies it *)
+Theorem C20_grouped_pad_reading_refuted :
+  exists idx pads c rpn i,
+    ks_sorted idx /\ compile [false; false] c = Some rpn /\ eval_cond nk0 c (nth i idx []) = true /\
+    (exists rs, scan_g [false; false] rpn (map (padk pads) idx) 8 0 = ScanOk rs /\ covered i rs = false) /\
+    (exists rs, scan_g [false; false] rpn idx 8 0 = ScanOk rs /\ covered i rs = true).
+Proof.
+  exists [[None; Some 2]; [None; Some 3]; [Some 0; None]; [Some 0; Some 0]; [Some 1; Some 0]], [0; 0], (CAtom 1 Cgt 2),
+         [EIn 1 (mkR (Fin 2) PosInf false false)], 1%nat.
+  split; [apply ks_sortedb_true; vm_compute; reflexivity|]. split; [reflexivity|]. split; [reflexivity|].
+  split; eexists; (split; [vm_compute; reflexivity|]); vm_compute; reflexivity.
+Qed.
+Print Assumptions C20_grouped_pad_reading_refuted.
 
 (* ---------- bloom-filter skip index: today's reader / writer (findings C20-bloom-gram-phrase, C20-bloom-nonascii-token-boundary) ----------
    split table = {space, '/'}; hash positions of a token: two numbers computed from its bytes *)
